@@ -201,10 +201,15 @@ func execC18(t *testing.T, p Plan, src kernel.Source) Result {
 		// live when the run starts is part of the plan, and the runs that fill a whole buffer
 		// first overwrite both buffers with zeros. (A scrape costs ~10 ms - it prints some
 		// 15 000 lines - so the scrubbing is not done in every run.)
+		prefillLock := ""
 		if p.X["prefill"] > 0 {
 			for round := 0; round < 2; round++ {
 				for i := 0; i < 32768; i++ {
 					metrics.ObserveHist(m.hist[hi], 0)
+					if prefillLock == "" {
+						// the first lock used in this run is the harness histogram's
+						prefillLock = fmt.Sprintf("L%d", w.Run.LastID("lock"))
+					}
 				}
 				readMetrics()
 			}
@@ -256,7 +261,15 @@ func execC18(t *testing.T, p Plan, src kernel.Source) Result {
 		}
 		var incSum uint64
 		lastOwner := ""
+		scriptPhase := 0
+		if p.X["script"] != 0 && prefillLock != "" {
+			scriptPhase = 1
+		}
 		obsLocks := map[string]bool{}
+		if prefillLock != "" {
+			// in prefilled runs the readers' steps on the harness histogram are always choices
+			obsLocks[prefillLock] = true
+		}
 		startObs := func(tk *task) {
 			v := tk.vals[tk.next]
 			tk.next++
@@ -345,9 +358,47 @@ func execC18(t *testing.T, p Plan, src kernel.Source) Result {
 				}
 				break
 			}
-			// sticky policy: with probability 3/4 keep serving the task served last
+			// scripted boundary schedule: drive reader0 until it has handed back the harness
+			// histogram's lock (extraction done, sort not yet), then let the observers make
+			// X["script_k"] whole observations, then go on as usual
 			pickI := -1
-			if lastOwner != "" && !w.Ch.Bool(1, 4, "switch") {
+			if scriptPhase == 1 {
+				window := false
+				for i, ev := range evs {
+					if ev.Owner == "reader0" && ev.Kind == "after-unlock" && ev.Obj == prefillLock {
+						window = true
+					}
+					if pickI < 0 && ev.Owner == "reader0" {
+						pickI = i
+					}
+				}
+				if window || pickI < 0 {
+					scriptPhase, pickI = 2, -1
+				}
+			}
+			if scriptPhase == 2 {
+				made := 0
+				busy := false
+				for _, tk := range obsTasks {
+					made += tk.next
+					busy = busy || tk.busy
+				}
+				if made >= int(p.X["script_k"]) && !busy {
+					scriptPhase = 3
+				} else {
+					for i, ev := range evs {
+						if strings.HasPrefix(ev.Owner, "obs") && (busy || made < int(p.X["script_k"]) || !strings.HasPrefix(ev.Label, "observe")) {
+							pickI = i
+							break
+						}
+					}
+					if pickI < 0 {
+						scriptPhase = 3
+					}
+				}
+			}
+			// sticky policy: with probability 3/4 keep serving the task served last
+			if pickI < 0 && lastOwner != "" && !w.Ch.Bool(1, 4, "switch") {
 				for i, ev := range evs {
 					if ev.Owner == lastOwner {
 						pickI = i
@@ -563,6 +614,33 @@ func execC18Buckets(t *testing.T, p Plan, src kernel.Source) Result {
 	})
 }
 
+// enumC18: boundary schedules. The first period holds 32767 / 32768 / 32769 / 40000
+// observations (the ring buffer holds 32768), on either of the two buffers, sampled or
+// not; a scrape is driven to the point where it has extracted the period and not yet
+// sorted it, one or two whole observations of the next period are made there, the scrape
+// finishes, more observations follow, and a second scrape reports the small period.
+func enumC18(tier string) []Plan {
+	var out []Plan
+	id := 0
+	for _, n := range []int64{32767, 32768, 32769, 40000} {
+		for hi := int64(0); hi < 2; hi++ {
+			for parity := int64(0); parity < 2; parity++ {
+				for k := int64(1); k <= 2; k++ {
+					id++
+					g := newGen(uint64(0xC18000 + id))
+					var vs []uint64
+					for i := 0; i < int(k)+1+g.n(3); i++ {
+						vs = append(vs, uint64(1+g.n(900)))
+					}
+					out = append(out, Plan{Prop: "C18", Seed: uint64(0xC18000 + id), XV: [][]uint64{vs},
+						X: map[string]int64{"sampled": hi, "prefill": n, "parity": parity, "script": 1, "script_k": k, "reads": 2, "coarse": int64(id % 2)}})
+				}
+			}
+		}
+	}
+	return out
+}
+
 func genC18(seed uint64, tier string) Plan {
 	g := newGen(seed)
 	p := Plan{Prop: "C18", Seed: seed, X: map[string]int64{"sampled": int64(g.n(2))}}
@@ -617,10 +695,13 @@ func genC18(seed uint64, tier string) Plan {
 		p.X["reads"] = int64(g.n(4))
 		p.X["coarse"] = int64(g.n(2))
 		p.X["parity"] = int64(g.n(2))
-		if g.p(1, 6) {
+		if g.p(1, 10) {
 			// the first period starts with a ring buffer's worth of observations
 			p.X["prefill"] = int64(pick(g, []int{32767, 32768, 32768, 32769, 40000}))
-			p.X["reads"] = int64(2 + g.n(2))
+			p.X["reads"] = 2
+			if len(p.XV) > 2 {
+				p.XV = p.XV[:2]
+			}
 		}
 		if g.p(1, 3) {
 			// two collectors scraping at once
@@ -633,9 +714,9 @@ func genC18(seed uint64, tier string) Plan {
 
 func init() {
 	register(&Prop{
-		ID: "C18", Gen: genC18, Exec: execC18,
+		ID: "C18", Gen: genC18, Exec: execC18, Enumerate: enumC18,
 		Nontrivial: func(p Plan, r Result) bool { return true },
-		Rule:       "70% interleave runs: 1-4 observer tasks (1-4 observations each: small values, powers of two and neighbours, 2^63-1, random magnitudes; each followed by IncCounterBy(value) and IncCounter) and one reader task (two in a third of the runs, i.e. overlapping scrapes) calling the real /metrics handler 0-3 times; every atomic operation of an observer and every lock operation of package metrics parks and is released by the kernel, so observers and the reader interleave at atomic-operation and lock granularity. In a sixth of the interleave runs the first period is prefilled with 32767-40000 large observations (the ring buffer's size and its neighbours) before the tasks start. Periods are reconstructed from the lock log (an observation belongs to the read - of whichever reader - that next takes the histogram's write lock). Per read: count = observations of the period, kept consistent, average, min and max equal, every percentile within [min,max] and one of the period's observations; counters equal the sum / number of increments. 20% bulk runs (no yields): 1..40 or {1,2,3,32767,32768,32769} (thorough also 65536, 65537, 100000) observations per period, several periods, three value distributions. 10% supplementary pure-input sweep (not simulation): bucket index read back through the bhist_* counters is non-decreasing in the value and its upper bound, from a table regenerated from the published Spectator algorithm, is >= the value. Not claimed: asm vs portable bit count; literal data-race freedom. Distinct = distinct plan hash",
+		Rule:       "70% interleave runs: 1-4 observer tasks (1-4 observations each: small values, powers of two and neighbours, 2^63-1, random magnitudes; each followed by IncCounterBy(value) and IncCounter) and one reader task (two in a third of the runs, i.e. overlapping scrapes) calling the real /metrics handler 0-3 times; every atomic operation of an observer and every lock operation of package metrics parks and is released by the kernel, so observers and the reader interleave at atomic-operation and lock granularity. In a tenth of the interleave runs the first period is prefilled with 32767-40000 large observations (the ring buffer's size and its neighbours) before the tasks start; an enumerated family of 32 boundary schedules does the same with a scripted schedule (the scrape is driven to the point between extracting and sorting the full period, one or two whole observations of the next period are made there, then the run continues randomly) for every combination of prefill size, sampled or not, and which of the two buffers is live. Periods are reconstructed from the lock log (an observation belongs to the read - of whichever reader - that next takes the histogram's write lock). Per read: count = observations of the period, kept consistent, average, min and max equal, every percentile within [min,max] and one of the period's observations; counters equal the sum / number of increments. 20% bulk runs (no yields): 1..40 or {1,2,3,32767,32768,32769} (thorough also 65536, 65537, 100000) observations per period, several periods, three value distributions. 10% supplementary pure-input sweep (not simulation): bucket index read back through the bhist_* counters is non-decreasing in the value and its upper bound, from a table regenerated from the published Spectator algorithm, is >= the value. Not claimed: asm vs portable bit count; literal data-race freedom. Distinct = distinct plan hash",
 		Real:       []string{"metrics (counters, histograms, bucket histograms, /metrics endpoint via http.DefaultServeMux)"},
 		Stub:       []string{"sync/atomic and sync.RWMutex of package metrics (yield points owned by the kernel)", "observer and reader tasks", "HTTP transport (httptest.ResponseRecorder)"},
 		RaceTest:   "TestRaceMetrics",
